@@ -653,3 +653,185 @@ Proof.
   - rewrite <- (ax_B_0 A H). apply (bounds_mono _ _ HB); lia.
   - apply (bounds_mono _ _ HB); lia.
 Qed.
+
+(** chunks *)
+Lemma tot_repeat v k : tot (repeat v k) = Z.of_nat k * v.
+Proof. induction k; simpl repeat; [reflexivity|]. rewrite tot_cons, IHk. lia. Qed.
+
+Lemma nth_repeat_lt (v d : Z) : forall k i, (i < k)%nat -> nth i (repeat v k) d = v.
+Proof. induction k; intros i Hi; [lia|]. destruct i; simpl; [reflexivity | apply IHk; lia]. Qed.
+
+Lemma ax_chunks_spec A : ax_wf A -> 0 < ax_S A ->
+  exists ch, ax_chunks A = Ok ch /\ len ch = ax_S A /\
+             (forall i, 0 <= i < ax_S A -> nthZ ch i = ax_B A (i + 1) - ax_B A i) /\
+             tot ch = ax_N A.
+Proof.
+  intros H HS. destruct A as [N n K | off].
+  - pose proof (ax_sz_spec _ 0 H HS) as Z0. pose proof (ax_sz_spec _ (K - 1) H HS) as Z1.
+    rewrite ax_N_reg by assumption.
+    cbn [ax_S ax_sz ax_B ax_chunks] in *. destruct H as (Hn & HN & ES).
+    unfold in_range, wrap_idx in Z0, Z1. cbv zeta in Z0, Z1.
+    destruct (Z.leb_spec (- K) 0); [|lia]. destruct (Z.ltb_spec 0 K); [|lia].
+    destruct (Z.leb_spec (- K) (K - 1)); [|lia]. destruct (Z.ltb_spec (K - 1) K); [|lia].
+    destruct (Z.ltb_spec 0 0); [lia|]. destruct (Z.ltb_spec (K - 1) 0); [lia|].
+    cbn [andb] in Z0, Z1. rewrite Z0, Z1. cbn [bind].
+    eexists; split; [reflexivity|].
+    replace (K - 1 + 1) with K by lia. replace (0 + 1) with 1 by lia.
+    assert (B0 : regB N n 0 = 0) by (apply regB_0; lia).
+    assert (BK : regB N n K = N) by (subst K; apply regB_S; lia).
+    assert (BK1 : regB N n (K - 1) = (K - 1) * n) by (apply regB_inner; lia).
+    rewrite B0, BK, BK1. split; [|split].
+    + rewrite len_app. unfold repeatZ, len. rewrite repeat_length. simpl. lia.
+    + intros i Hi. unfold nthZ, repeatZ.
+      destruct (Z_lt_le_dec i (K - 1)) as [L | G].
+      * rewrite app_nth1 by (rewrite repeat_length; lia).
+        rewrite nth_repeat_lt by lia.
+        rewrite (regB_inner N n i), (regB_inner N n (i + 1)) by lia.
+        assert (B1 : regB N n 1 = n) by (rewrite regB_inner by lia; lia). lia.
+      * assert (i = K - 1) by lia. subst i.
+        rewrite app_nth2 by (rewrite repeat_length; lia). rewrite repeat_length.
+        replace (Z.to_nat (K - 1) - Z.to_nat (K - 1))%nat with 0%nat by lia. simpl.
+        replace (K - 1 + 1) with K by lia. lia.
+    + rewrite tot_app, tot_cons. unfold repeatZ. rewrite tot_repeat. simpl tot.
+      destruct (Z_lt_le_dec 1 K) as [L | G].
+      * assert (B1 : regB N n 1 = n) by (rewrite regB_inner by lia; lia). rewrite B1. nia.
+      * assert (K = 1) by lia. subst K. simpl. lia.
+  - exists (diffs off). split; [reflexivity|]. split; [|split].
+    + pose proof (var_wf_len off H). cbn [ax_S]. lia.
+    + intros i Hi. rewrite ax_var_step by assumption. lia.
+    + symmetry. apply ax_N_var; assumption.
+Qed.
+
+(** crop *)
+Lemma cdiv_unique M n k : 0 < n -> (k - 1) * n < M <= k * n -> cdiv M n = k.
+Proof. intros Hn H. pose proof (cdiv_spec M n Hn). nia. Qed.
+
+Lemma ax_crop_spec A a b : ax_wf A -> 0 <= a < ax_S A -> a <= b <= ax_S A ->
+  exists A', ax_crop A (mk_sl (a, b)) = Ok A' /\ ax_wf A' /\ ax_S A' = b - a /\
+             (forall i, 0 <= i <= b - a -> ax_B A' i = ax_B A (a + i) - ax_B A a).
+Proof.
+  intros H Ha Hb. destruct A as [N n K | off].
+  - cbn [ax_crop ax_S] in *. destruct H as (Hn & HN & ES).
+    rewrite norm_ss_mk by lia. rewrite tiles_slice_spec by (try assumption; lia). rewrite <- ES.
+    destruct (Z.ltb_spec a K); [|lia]. destruct (Z.leb_spec b K); [|lia]. cbn [andb bind fst snd].
+    pose proof (cdiv_spec N n Hn) as CS. rewrite <- ES in CS.
+    set (N' := regB N n b - a * n).
+    assert (HN' : N' = Z.min ((b - a) * n) (N - a * n)) by (unfold N', regB; lia).
+    assert (a * n < N) by nia.
+    assert (EK : cdiv N' n = b - a).
+    { apply cdiv_unique; [assumption|]. rewrite HN'.
+      destruct (Z_lt_le_dec b K).
+      - assert (b * n <= N) by nia. nia.
+      - assert (b = K) by lia. subst b. nia. }
+    eexists; split; [reflexivity|]. split; [|split].
+    + cbn [ax_wf]. split; [assumption|]. split; [nia | reflexivity].
+    + cbn [ax_S]. exact EK.
+    + intros i Hi. cbn [ax_B]. unfold regB. fold N'. rewrite HN'.
+      assert (i * n <= (b - a) * n) by nia. nia.
+  - pose proof (var_wf_len off H) as L. var_inv H ch. cbn [ax_crop].
+    rewrite len_offsets. replace (len ch + 1 - 1) with (len ch) by lia.
+    rewrite norm_ss_mk by lia. cbn [fst snd]. destruct (Z.ltb_spec a 0); [lia|].
+    rewrite diffs_psum. rewrite py_sel_in_range by lia.
+    pose proof (nonneg_sel ch a b Hnn) as Hn'.
+    pose proof (tot_sel_le ch a b Hnn ltac:(lia) ltac:(lia)) as Ht'.
+    rewrite vt_offsets_ok by (try assumption; lia). cbn [bind].
+    eexists; split; [reflexivity|]. split; [|split].
+    + apply var_wf_intro; [assumption | lia].
+    + cbn [ax_S]. rewrite len_offsets. rewrite len_sel_in by lia. lia.
+    + intros i Hi. cbn [ax_B]. rewrite !nthZ_offsets by (try rewrite len_sel_in by lia; lia).
+      apply varB_sel; lia.
+Qed.
+
+(** * Two axes *)
+Definition rt_y (t : rtiles) : axis :=
+  match t with
+  | RReg t => AReg (fst (t_base t)) (fst (t_tile t)) (fst (t_shape t))
+  | RVar v => AVar (v_offy v)
+  end.
+Definition rt_x (t : rtiles) : axis :=
+  match t with
+  | RReg t => AReg (snd (t_base t)) (snd (t_tile t)) (snd (t_shape t))
+  | RVar v => AVar (v_offx v)
+  end.
+Definition rt_wf (t : rtiles) : Prop := ax_wf (rt_y t) /\ ax_wf (rt_x t).
+
+Lemma rt_shape_axes t : rt_shape t = (ax_S (rt_y t), ax_S (rt_x t)).
+Proof. destruct t as [t | v]; [destruct t as [b tl [sy sx]]|]; reflexivity. Qed.
+
+Lemma np_at_err a i e : np_at a i = Err e -> e = EIndex.
+Proof. unfold np_at. destruct (_ && _); congruence. Qed.
+
+Lemma vt_slice_err a i e : vt_slice a i = Err e -> e = EIndex.
+Proof.
+  unfold vt_slice. destruct (np_at a (fst i)) eqn:E1; simpl.
+  - destruct (np_at a (snd i)) eqn:E2; simpl; [congruence|].
+    intros X; inversion X; subst. eapply np_at_err; eassumption.
+  - intros X; inversion X; subst. eapply np_at_err; eassumption.
+Qed.
+
+Lemma rt_getitem_axes t idx :
+  rt_getitem t idx = (y <- ax_get (rt_y t) (fst idx) ;; x <- ax_get (rt_x t) (snd idx) ;; Ok (y, x)).
+Proof.
+  destruct t as [t | v]; [reflexivity|].
+  cbn [rt_getitem rt_y rt_x ax_get]. unfold vt_getitem, vt_shape. cbn [fst snd].
+  destruct (fst (norm_ss (fst idx) (len (v_offy v) - 1)) <? 0); [reflexivity|].
+  destruct (fst (norm_ss (snd idx) (len (v_offx v) - 1)) <? 0); cbn [orb]; [|reflexivity].
+  destruct (vt_slice (v_offy v) _) eqn:E; cbn [bind]; [reflexivity|].
+  apply vt_slice_err in E. subst. reflexivity.
+Qed.
+
+Lemma rt_tile_shape_axes t idx :
+  rt_tile_shape t idx = (ny <- ax_sz (rt_y t) (fst idx) ;; nx <- ax_sz (rt_x t) (snd idx) ;; Ok (ny, nx)).
+Proof. destruct t; reflexivity. Qed.
+
+Lemma rt_base_axes t : rt_wf t -> rt_base t = Ok (ax_N (rt_y t), ax_N (rt_x t)).
+Proof.
+  intros (Hy & Hx). destruct t as [t | v].
+  - cbn [rt_base rt_y rt_x] in *. rewrite !ax_N_reg by assumption. destruct (t_base t); reflexivity.
+  - cbn [rt_base rt_y rt_x] in *. unfold vt_base, ax_N. cbn [ax_S ax_B].
+    pose proof (var_wf_len _ Hy). pose proof (var_wf_len _ Hx).
+    pose proof (len_nonneg (diffs (v_offy v))). pose proof (len_nonneg (diffs (v_offx v))).
+    unfold np_at.
+    destruct (Z.leb_spec (- len (v_offy v)) (-1)); [|lia]. destruct (Z.ltb_spec (-1) (len (v_offy v))); [|lia].
+    destruct (Z.leb_spec (- len (v_offx v)) (-1)); [|lia]. destruct (Z.ltb_spec (-1) (len (v_offx v))); [|lia].
+    cbn [andb bind]. change (-1 <? 0) with true. cbv iota.
+    replace (-1 + len (v_offy v)) with (len (v_offy v) - 1) by lia.
+    replace (-1 + len (v_offx v)) with (len (v_offx v) - 1) by lia. reflexivity.
+Qed.
+
+Lemma rt_locate_axes t y x : rt_wf t ->
+  rt_locate t (y, x) =
+    if (y <? 0) || (y >=? ax_N (rt_y t)) || (x <? 0) || (x >=? ax_N (rt_x t)) then Err EIndex
+    else (iy <- ax_loc (rt_y t) y ;; ix <- ax_loc (rt_x t) x ;; Ok (iy, ix)).
+Proof.
+  intros W. pose proof (rt_base_axes t W) as B. destruct W as (Hy & Hx). destruct t as [t | v].
+  - cbn [rt_locate rt_y rt_x rt_base ax_loc] in *. unfold tiles_locate, tiles_tile_shape.
+    rewrite !ax_N_reg by assumption.
+    destruct (t_base t) as [NY NX]. cbn [fst snd] in *.
+    destruct ((y <? 0) || (y >=? NY) || (x <? 0) || (x >=? NX)); [reflexivity|].
+    cbn [fst snd].
+    destruct (tile_sz 0 (fst (t_shape t)) (fst (t_tile t)) NY); cbn [bind]; [|reflexivity].
+    destruct (tile_sz 0 (snd (t_shape t)) (snd (t_tile t)) NX); cbn [bind]; reflexivity.
+  - cbn [rt_locate rt_y rt_x rt_base ax_loc] in *. unfold vt_locate. rewrite B. cbn [bind].
+    destruct ((y <? 0) || (y >=? _) || (x <? 0) || (x >=? _)); reflexivity.
+Qed.
+
+(** constructors produce well-formed tilings *)
+Lemma tiles_init_wf base tile : 0 < fst tile -> 0 < snd tile -> 0 <= fst base -> 0 <= snd base ->
+  exists t, tiles_init base tile = Ok t /\ rt_wf (RReg t) /\
+            t_base t = base /\ t_tile t = tile /\
+            t_shape t = (cdiv (fst base) (fst tile), cdiv (snd base) (snd tile)).
+Proof.
+  intros Hy Hx By Bx. unfold tiles_init.
+  destruct (Z.eqb_spec (fst tile) 0); [lia|]. destruct (Z.eqb_spec (snd tile) 0); [lia|]. cbn [orb].
+  eexists; split; [reflexivity|]. cbn. repeat split; auto.
+Qed.
+
+Lemma vt_init_wf chy chx : nonneg chy -> nonneg chx -> tot chy < two63 -> tot chx < two63 ->
+  exists v, vt_init chy chx = Ok v /\ rt_wf (RVar v) /\
+            v_offy v = 0 :: psum 0 chy /\ v_offx v = 0 :: psum 0 chx.
+Proof.
+  intros Hy Hx Ty Tx. unfold vt_init. rewrite !vt_offsets_ok by assumption. cbn [bind].
+  eexists; split; [reflexivity|]. cbn [v_offy v_offx]. split; [|auto].
+  split; apply var_wf_intro; assumption.
+Qed.
